@@ -430,6 +430,11 @@ func (term *TermInvoke) Operands() []*value.Value {
 	for i := range term.Args {
 		ops = append(ops, &term.Args[i])
 	}
+	for _, bundle := range term.OperandBundles {
+		for i := range bundle.Inputs {
+			ops = append(ops, &bundle.Inputs[i])
+		}
+	}
 	ops = append(ops, &term.NormalRetTarget)
 	ops = append(ops, &term.ExceptionRetTarget)
 	return ops
@@ -593,6 +598,11 @@ func (term *TermCallBr) Operands() []*value.Value {
 	ops = append(ops, &term.Callee)
 	for i := range term.Args {
 		ops = append(ops, &term.Args[i])
+	}
+	for _, bundle := range term.OperandBundles {
+		for i := range bundle.Inputs {
+			ops = append(ops, &bundle.Inputs[i])
+		}
 	}
 	ops = append(ops, &term.NormalRetTarget)
 	for i := range term.OtherRetTargets {
